@@ -21,6 +21,7 @@ type Ty struct {
 	Key    *Ty
 	Elem   *Ty
 	Binary bool // STRING declared as binary in the IDL
+	TD     []string // typedef chain: TD[0] names the structural type, TD[i] names TD[i-1]; the IDL refers to the last name
 }
 
 type Fld struct {
@@ -110,7 +111,16 @@ func (g *tgen) genType(depth int) *Ty {
 	}
 }
 
+// the name the IDL uses for the type: its last typedef name if it was declared through typedefs (a typedef is transparent:
+// the resolved type is the structural one)
 func (t *Ty) idlName() string {
+	if len(t.TD) > 0 {
+		return t.TD[len(t.TD)-1]
+	}
+	return t.idlStruct()
+}
+
+func (t *Ty) idlStruct() string {
 	switch t.K {
 	case thrift.BOOL:
 		return "bool"
@@ -453,4 +463,33 @@ func sortedFieldIDs(t *Ty) []int {
 	}
 	sort.Ints(ids)
 	return ids
+}
+
+// typedef declarations of every type reachable from the given roots that carries a typedef chain (inner types first)
+func typedefDecls(roots []*Ty) string {
+	var sb strings.Builder
+	seen := map[*Ty]bool{}
+	var walk func(t *Ty)
+	walk = func(t *Ty) {
+		if t == nil || seen[t] {
+			return
+		}
+		seen[t] = true
+		for _, f := range t.Fields {
+			walk(f.T)
+		}
+		walk(t.Key)
+		walk(t.Elem)
+		for i, n := range t.TD {
+			of := t.idlStruct()
+			if i > 0 {
+				of = t.TD[i-1]
+			}
+			sb.WriteString("typedef " + of + " " + n + "\n")
+		}
+	}
+	for _, r := range roots {
+		walk(r)
+	}
+	return sb.String()
 }
